@@ -5,6 +5,7 @@ package cl
 import (
 	"fmt"
 	"io"
+	"strings"
 
 	"github.com/ohler55/slip"
 )
@@ -70,6 +71,9 @@ func (f *Defun) Call(s *slip.Scope, args slip.List, depth int) (result slip.Obje
 	if pkg == nil {
 		pkg = slip.CurrentPackage
 	}
+	// Symbols are not case sensitive. Calls look a function up by the lower
+	// case name.
+	low = strings.ToLower(low)
 	lc := slip.DefLambda(low, s, args[1:])
 	fc := func(fargs slip.List) slip.Object {
 		return &slip.Dynamic{
